@@ -23,6 +23,7 @@ ASSUMPTIONS = [
     "z is the library's own standardised data (MatchedFilter.zscores.data); the template definition (zero-padded to n, zero mean, unit L2 norm, reference bin rolled to t) is evaluated independently in float64",
     "tolerance 32*eps32*log2(n)*||z||_2 per response (float32 FFT rounding); exact ties of the maximum are excluded",
     "banks whose largest template does not fit the data (library raises ValueError) are out of scope and counted",
+    "the boxcar bank is stated independently as the ladder 1, max(w+1, floor(spacing*w)), ... up to and including nbins_max (the documented meaning of nbins_max)",
 ]
 REQUIRED_OUTCOMES = ["responses/ok", "responses/non_good_length", "argmax/ok", "affine/ok", "boxcar_recovery/ok", "peak_recovery/ok"]
 
@@ -201,12 +202,32 @@ def _responses(shard, ctx, res, only):
     res.sample({"shard": shard, "inner": [shard["lo"], "gaussian", 8, 1.5]}, cap=1)
 
 
+def _ladder(nbmax, spacing):
+    """Independent statement of the boxcar bank: 1, then max(w+1, floor(spacing*w)) while <= nbins_max (inclusive)."""
+    ws = [1]
+    while True:
+        nxt = int(max(ws[-1] + 1, spacing * ws[-1]))
+        if nxt > nbmax:
+            return ws
+        ws.append(nxt)
+
+
 def _recovery(shard, ctx, res, only):
     from sigpyproc.core.filters import MatchedFilter
 
     n = shard["n"]
+    if only is None:
+        for nbmax in range(1, 41):
+            for spacing in (1.2, 1.5, 2.0, 3.0):
+                res.evaluations += 1
+                got = [int(w) for w in MatchedFilter.get_box_width_spacing(nbmax, spacing)]
+                if got != _ladder(nbmax, spacing):
+                    res.violation({"site": "MatchedFilter.get_box_width_spacing", "symptom": "boxcar bank differs from the width ladder up to and including nbins_max"},
+                                  {"shard": shard, "inner": [nbmax, spacing, 0, 0]}, f"nbins_max={nbmax} spacing={spacing}: {got} vs {_ladder(nbmax, spacing)}")
+                else:
+                    res.outcome("bank_ladder/ok")
     for nbmax, spacing in BANKS:
-        widths = [int(w) for w in MatchedFilter.get_box_width_spacing(nbmax, spacing)]
+        widths = _ladder(nbmax, spacing)
         for w in widths:
             for p in range(n):
                 if only is not None and [nbmax, spacing, w, p] != only:
